@@ -678,6 +678,10 @@ func (fr *Frame) bindResults(st *State, call *ssa.Call, res []Term) {
 			out := make([]Term, n)
 			for i := range res {
 				out[i] = vc.coerce(res[i], fr.calleeResultType(call, i), tup.At(i).Type())
+				if out[i] != res[i] {
+					// a generic result viewed at its concrete type exists now as well
+					vc.older(st, out[i], vc.sortOf(tup.At(i).Type()))
+				}
 			}
 			fr.tuples[call] = out
 		} else {
